@@ -459,7 +459,7 @@ _ADDED6 = {
     "C10": "After restart the subject store must also open its own envelopes handed out before the stop (read-back path).",
     "C11": "Derivations are also asked for public keys nobody can hold (byte strings that are not curve points, points of small order): refused, or unrelated across accounts and keys.",
     "C12": "Descriptors are derived from every accepted way of holding a multi-member group in each case, including invitations that spell out the optional sign_pub / link_key fields.",
-    "C13": "The whole (since, until, reverse) cube also over merged logs of two writers with concurrent entries, on two replicas.",
+    "C13": "The whole (since, until, reverse) cube also over merged logs of two writers with concurrent entries, on two replicas. RPC layer: in three quarters of the cases another member's concurrent branch reaches the node first, so that both logs have two heads while they are listed.",
     "C14": "Service layer: the stand-alone push service created on the account's root datastore (its default secret store next to the application's), pushes of one sender opened through the service, through the application's store or arriving through the log with generated distances between counters (reply fields and AlreadyReceived flag checked).",
     "C15": "Priority counters over the whole uint64 range (the counter comes from the sender's header); bursts of 20-300 parked items followed by partial drains in both sequential machines; the metrics callback of the simple queue is a schedule point in the controlled schedules. `TestVerif_C15_MessageItems` (root package): the message store's own per-device queue over its item type, counters 0 .. 2^64-1.",
     "C16": "The controlled scheduler models sync.RWMutex writer preference (readers arriving after a waiting writer wait behind it); the peer cache scenarios add readers (GetPeersForTopics / GetPeers) next to updater and waiters. Tracker scenarios with two waiters of one group: the list handed to a waiter must read the same after other tasks ran; two updaters changing two peers that share two groups.",
